@@ -37,8 +37,19 @@ BadUnary(e) ==
                             LET k == e.scale[j].k x == e.scale[j].add_point IN
                             IsRange(x) /\ (IF e.small THEN ObAdd(r, <<k, k>>, x) ELSE x = AddCF(r, <<k, k>>))>>})
 
+(* extreme bounds: a value v is logged as <<v \div 65536, v % 65536>> (TLC integers are 32-bit) and only compared *)
+LeB(x, y) == x[1] < y[1] \/ (x[1] = y[1] /\ x[2] <= y[2])
+InB(r, i) == LeB(r.lo, i) /\ (r.inf \/ LeB(i, r.hi))
+InclB(r, s) == LeB(r.lo, s.lo) /\ (r.inf \/ (~s.inf /\ LeB(s.hi, r.hi)))
+BadBig(e) ==
+  Failed({<<"C15:contains", \A j \in 1..Len(e.contains) : e.contains[j].res = InB(e.r, e.contains[j].i)>>,
+          <<"C15:includes", \A j \in 1..Len(e.includes) : e.includes[j].res = InclB(e.r, e.includes[j].s)>>,
+          <<"C15:predicates", /\ e.finite = ~e.r.inf /\ e.infinite = e.r.inf /\ e.start = e.r.lo
+                              /\ e.point = (~e.r.inf /\ e.r.lo = e.r.hi)>>})
+
 Bad(e) ==
   CASE e.op = "pair"  -> BadPair(e)
+    [] e.op = "big"   -> BadBig(e)
     [] e.op = "unary" -> BadUnary(e)
     [] e.op = "named" -> Failed({<<"C15:named_constructors",
                                   e.opt = <<0, 1>> /\ e.star = <<0, -1>> /\ e.plus = <<1, -1>> /\ e.point3 = <<3, 3>>>>})
